@@ -51,6 +51,17 @@ Definition run_c01 (k : Z) (args : list (list Z)) : list (list Z) :=
   else if k =? 201 then opt_out (d8_to_array (argn 0 args) (net_in (arg 1 args)))
   else if k =? 202 then opt_out (ldd_to_array (argn 0 args) (net_in (arg 1 args)))
   else if k =? 203 then let '(x, y) := nextxy_to_array (argn 0 args) (net_in (arg 1 args)) in [[0]; x; y]
+  else if k =? 206 then
+    (* from_array(src) then to_array(tgt) through the object *)
+    let src := argz 0 args in let tgt := argz 1 args in
+    let nrow := argn 2 args in let ncol := argn 3 args in
+    let ds := if src =? 0 then d8_from_array nrow ncol (arg 4 args)
+              else if src =? 1 then ldd_from_array nrow ncol (arg 4 args)
+              else nextxy_from_array nrow ncol (arg 4 args) (arg 5 args) in
+    if (length ds <=? 1)%nat || (match pits_of ds with [] => true | _ => false end) then [[1]]
+    else if tgt =? 0 then opt_out (d8_to_array ncol ds)
+    else if tgt =? 1 then opt_out (ldd_to_array ncol ds)
+    else let '(x, y) := nextxy_to_array ncol ds in [[0]; x; y]
   else if k =? 204 then [map d8_to_ldd (arg 0 args)]
   else if k =? 205 then [map ldd_to_d8 (arg 0 args)]
   else [[-999]].
